@@ -559,6 +559,7 @@ namespace bloch::runtime {
 #endif
         m_functions.clear();
         m_env.clear();
+        m_frameBases.clear();
         m_measurements.clear();
         m_trackedCounts.clear();
         m_echoBuffer.clear();
@@ -649,9 +650,11 @@ namespace bloch::runtime {
     }
 
     Value RuntimeEvaluator::lookup(const std::string& name) {
-        for (auto it = m_env.rbegin(); it != m_env.rend(); ++it) {
-            auto fit = it->find(name);
-            if (fit != it->end())
+        // Only the scopes of the running call are visible: names are resolved lexically, a
+        // callee never sees the locals of whichever function happens to be calling it.
+        for (size_t i = m_env.size(); i-- > frameBase();) {
+            auto fit = m_env[i].find(name);
+            if (fit != m_env[i].end())
                 return fit->second.value;
         }
         std::shared_ptr<Object> thisObj = currentThisObject();
@@ -685,9 +688,9 @@ namespace bloch::runtime {
     }
 
     void RuntimeEvaluator::assign(const std::string& name, const Value& v) {
-        for (auto it = m_env.rbegin(); it != m_env.rend(); ++it) {
-            auto fit = it->find(name);
-            if (fit != it->end()) {
+        for (size_t i = m_env.size(); i-- > frameBase();) {
+            auto fit = m_env[i].find(name);
+            if (fit != m_env[i].end()) {
                 Value newVal = v;
                 if (fit->second.value.type == Value::Type::Object &&
                     newVal.type == Value::Type::Object && newVal.objectValue &&
@@ -731,12 +734,23 @@ namespace bloch::runtime {
     }
 
     std::shared_ptr<Object> RuntimeEvaluator::currentThisObject() const {
-        for (auto it = m_env.rbegin(); it != m_env.rend(); ++it) {
-            auto found = it->find("this");
-            if (found != it->end() && found->second.value.objectValue)
+        for (size_t i = m_env.size(); i-- > frameBase();) {
+            auto found = m_env[i].find("this");
+            if (found != m_env[i].end() && found->second.value.objectValue)
                 return found->second.value.objectValue;
         }
         return {};
+    }
+
+    void RuntimeEvaluator::beginFrame() {
+        m_frameBases.push_back(m_env.size());
+        beginScope();
+    }
+
+    void RuntimeEvaluator::endFrame() {
+        endScope();
+        if (!m_frameBases.empty())
+            m_frameBases.pop_back();
     }
 
     RuntimeClass* RuntimeEvaluator::findClass(const std::string& name) const {
@@ -1228,7 +1242,9 @@ namespace bloch::runtime {
             m_currentClassCtx = cls;
             slot = defaultValueForField(field, cls->name);
             if (field.hasInitializer && field.initializer) {
+                beginFrame();  // a (lazily run) static initialiser sees no caller locals
                 slot = eval(field.initializer);
+                endFrame();
             }
             m_inStaticContext = prevStatic;
             m_currentClassCtx = prevClass;
@@ -1447,7 +1463,7 @@ namespace bloch::runtime {
                 m_inStaticContext = false;
                 m_inConstructor = false;
                 m_inDestructor = true;
-                beginScope();
+                beginFrame();
                 Value thisVal;
                 thisVal.type = Value::Type::Object;
                 thisVal.objectValue = std::shared_ptr<Object>(obj, [](Object*) {});
@@ -1458,7 +1474,7 @@ namespace bloch::runtime {
                     if (m_hasReturn)
                         break;
                 }
-                endScope();
+                endFrame();
                 m_inDestructor = prevDtor;
                 m_inConstructor = prevCtor;
                 m_inStaticContext = prevStatic;
@@ -1512,7 +1528,7 @@ namespace bloch::runtime {
                 bool prevStatic = m_inStaticContext;
                 m_currentClassCtx = cls;
                 m_inStaticContext = false;
-                beginScope();
+                beginFrame();
                 Value thisVal;
                 thisVal.type = Value::Type::Object;
                 thisVal.objectValue = obj;
@@ -1520,7 +1536,7 @@ namespace bloch::runtime {
                 m_env.back()["this"] = {thisVal, false, true};
                 Value init = eval(field.initializer);
                 slot = withDeclaredClass(init, field.type);
-                endScope();
+                endFrame();
                 m_currentClassCtx = prevClass;
                 m_inStaticContext = prevStatic;
             }
@@ -1550,7 +1566,7 @@ namespace bloch::runtime {
         m_inStaticContext = false;
         m_inConstructor = true;
         m_inDestructor = false;
-        beginScope();
+        beginFrame();
         Value thisVal;
         thisVal.type = Value::Type::Object;
         thisVal.objectValue = obj;
@@ -1671,7 +1687,7 @@ namespace bloch::runtime {
         }
 
         m_returnValue = {};  // a constructor's 'return this' must not pin the object
-        endScope();
+        endFrame();
         m_currentClassCtx = prevClass;
         m_inStaticContext = prevStatic;
         m_inConstructor = prevCtor;
@@ -1694,7 +1710,7 @@ namespace bloch::runtime {
         m_inStaticContext = method->isStatic;
         m_inConstructor = false;
         m_inDestructor = false;
-        beginScope();
+        beginFrame();
         if (!method->isStatic) {
             Value thisVal;
             thisVal.type = Value::Type::Object;
@@ -1729,7 +1745,7 @@ namespace bloch::runtime {
             ret = withDeclaredClass(ret, typeInfoFromAst(method->decl->returnType.get(), subst));
         }
         m_returnValue = {};  // consumed: do not keep the returned object alive
-        endScope();
+        endFrame();
         m_hasReturn = prevReturn;
         m_currentClassCtx = prevClass;
         m_inStaticContext = prevStatic;
@@ -1739,8 +1755,13 @@ namespace bloch::runtime {
     }
 
     Value RuntimeEvaluator::call(FunctionDeclaration* fn, const std::vector<Value>& args) {
-        // Bind parameters, run the body until a return is hit, then unwind.
-        beginScope();
+        // Bind parameters, run the body until a return is hit, then unwind. A top-level
+        // function has no enclosing class: it must not see the caller's fields or statics.
+        auto prevClass = m_currentClassCtx;
+        bool prevStatic = m_inStaticContext;
+        m_currentClassCtx = nullptr;
+        m_inStaticContext = false;
+        beginFrame();
         for (size_t i = 0; i < fn->params.size() && i < args.size(); ++i) {
             m_env.back()[fn->params[i]->name] = {
                 withDeclaredClass(args[i], typeInfoFromAst(fn->params[i]->type.get())), false,
@@ -1758,8 +1779,10 @@ namespace bloch::runtime {
         }
         Value ret = withDeclaredClass(m_returnValue, typeInfoFromAst(fn->returnType.get()));
         m_returnValue = {};  // consumed: do not keep the returned object alive
-        endScope();
+        endFrame();
         m_hasReturn = prevReturn;
+        m_currentClassCtx = prevClass;
+        m_inStaticContext = prevStatic;
         return ret;
     }
 
